@@ -43,6 +43,8 @@ VEC_CONFIGS = [
     ('sv_4_ntr_u8_amc', vec(4, 'ntr', 'u8', 'amc')),
     ('sv_4_tc7_u16_std', vec(4, 'tc7', 'u16', 'std')),
     ('sv_4_i32_i8_std', vec(4, 'i32', 'i8', 'std')),
+    ('sv_2_tc7_u32_std', vec(2, 'tc7', 'u32', 'std')),
+    ('sv_3_tc3_u16_re', vec(3, 'tc3', 'u16', 're')),
     ('sv_8_u8e_u32_amc', vec(8, 'u8e', 'u32', 'amc')),
     ('sv_8_tr_u64_std', vec(8, 'tr', 'u64', 'std')),
     ('sv_8_ntr_u32_realamc', vec(8, 'ntr', 'u32', 'realamc')),
@@ -66,7 +68,8 @@ VEC_CONFIGS = [
 VEC_TYPES = dict(VEC_CONFIGS)
 
 # rebuilt under other language standards (no move-only element: needs if constexpr)
-VEC_MULTISTD = ['vec_0_ntr_u32_std', 'vec_0_tr_u32_re', 'sv_3_ntr_u32_std', 'sv_4_tr_u32_re', 'sv_2_tc3_u32_amc', 'fcv_6_ntr', 'sv_3_i32_i32_amc']
+VEC_MULTISTD = ['vec_0_ntr_u32_std', 'vec_0_tr_u32_re', 'sv_3_ntr_u32_std', 'sv_4_tr_u32_re', 'sv_2_tc3_u32_amc', 'fcv_6_ntr', 'sv_3_i32_i32_amc', 'sv_2_tc7_u32_std',
+                'sv_3_tc3_u16_re']
 
 
 def vec_subset(pred):
